@@ -158,3 +158,71 @@ def junk_cases(rng, n):
         if rng.below(8) == 0: rows, cols = 2 + rng.below(4), 2 + rng.below(8)
         out.append(case(f, ks, rows, cols))
     return out
+
+SPATS = [b"foo", b"ba.", b"o", b"^x", b"d$", b"[a-c]", b"\\<b", b"a\\>", b"\\<a", b"x*", b"hello world", b"\\(", b"", "é".encode(), b"zz9", b"^$", b"^", b"$", b".",
+         b"wor|ba", b"(a)(b)?", b"o+", b"\\<", b"\\>", b"[[:space:]]b", b"l\\>", b"\\<if\\>", b"e.g", b"\\.", "文".encode(), "ل".encode(), b"F", b"BAR", b" +", b"\t", b"^ ", b"^\t*", b"k\\]", b"\\<e"]
+
+def search_cases(rng, n, maxcmds=8):
+    """sequences of / ? n N ^A (with counts and line offsets) mixed with a few motions (C13)"""
+    out = []
+    for i in range(n):
+        f = gen_file(rng, long=(rng.below(6) == 0))
+        rows, cols = geometry(rng)
+        parts = []
+        for _ in range(1 + rng.below(maxcmds)):
+            k = rng.below(12)
+            c = cnt(rng) if rng.below(4) == 0 else b""
+            if k < 4:
+                d = rng.pick([b"/", b"?"])
+                pat = rng.pick(SPATS)
+                if rng.below(3) == 0 and f:
+                    ws = [w for w in f.split() if w and b"/" not in w and b"?" not in w and b"\\" not in w and b"[" not in w and b"(" not in w and b"*" not in w and b"." not in w and b"{" not in w]
+                    if ws: pat = rng.pick(ws)[:1 + rng.below(4)]
+                    try: pat.decode()
+                    except UnicodeDecodeError: pat = b"o"
+                pat = pat.replace(d, b"\\" + d)
+                off = rng.pick([b"", b"", b"", b"", d + b"1", d + b"-1", d + b"+2", d + b"0", d])
+                parts.append(c + d + pat + off + b"\n")
+            elif k < 7: parts.append(c + rng.pick([b"n", b"N"]))
+            elif k == 7: parts.append(c + b"\x01")
+            else: parts.append(rng.pick([b"j", b"k", b"w", b"b", b"$", b"0", b"G", b"1G", b"l", b"h", b"3l", b"e"]))
+        out.append(case(f, b"".join(parts), rows, cols))
+    return out
+
+CHANGES = [b"x", b"3x", b"X", b"dd", b"2dd", b"dw", b"d2w", b"2dw", b"de", b"d$", b"D", b"cwNEW\x1b", b"c2wa b\x1b", b"ccline\x1b", b"ifoo \x1b", b"abar\x1b", b"Aend\x1b", b"I> \x1b",
+           b"onew line\x1b", b"Oabove\x1b", b"ia\nb\x1b", "iéé中\x1b".encode(), b"p", b"P", b"2p", b"J", b"3J", b"rZ", b"2rq", b"~", b"4~", b">>", b"<<", b">j", b"sXY\x1b", b"Sall\x1b",
+           b"Cend\x1b", b"\"add", b"\"ayw", b"\"ap", b"\"Add", b"yw", b"yy", b"Y", b"g~w", b"gUw", b"guu"[:2] + b"w", b"dfo", b"dtb", b"d/o\n", b"c/a\nZ\x1b", b"i\x16\x1bx\x1b", b"ia\x08b\x1b", b"i12\x17 3\x1b", b"d0", b"dG", b"dj", b"dk", b"d%", b"cl\x1b", b"r\n"]
+
+def repeat_cases(rng, n):
+    """pairs (A, B): A uses '.' / 'N.' / '@r', B retypes the keys; both end with the same tail (C09)"""
+    out = []
+    for i in range(n):
+        f = gen_file(rng)
+        if f is None or len(f) < 4: f = b"foo bar baz\nhello (q) world\n  two  three\n\nlast line x\n"
+        rows, cols = geometry(rng)
+        safe = [b"j", b"w", b"l", b"0", b"$", b"k", b"2w", b"b", b"+", b"", b"3l", b"G", b"1G", b"e", b"W", b"}", b"fo", b"2j", b"^"]
+        pre = b"".join(rng.pick(safe) for _ in range(rng.below(4)))
+        mid = b"".join(rng.pick(safe) for _ in range(rng.below(3)))
+        tail = rng.pick([b"", b"", b"u", b"j", b"p", b"\x07"])
+        kind = rng.below(10)
+        if kind < 6:
+            ch = rng.pick(CHANGES)
+            k = rng.pick([1, 1, 1, 2, 3])
+            dot = (str(k).encode() if k > 1 or rng.below(4) == 0 else b"") + b"."
+            a = pre + ch + mid + dot + tail
+            b = pre + ch + mid + ch * k + tail
+        elif kind < 8:
+            # two repeats in a row
+            ch = rng.pick(CHANGES)
+            a = pre + ch + mid + b"." + mid + b"." + tail
+            b = pre + ch + mid + ch + mid + ch + tail
+        else:
+            # macro: the register text is a line of the file, yanked into register q by "qy$ / "qyy
+            macro = rng.pick([b"x", b"dw", b"ihi \x1b", b"A!\x1b", b"wx", b"2x", b"dd", b"rZl", b"~~", b"Jx", b"x.", b"A1\x1b.A2\x1b", b"dwwP", b"ia\x1b.l"])
+            text = macro.replace(b"\x1b", b"\x16\x1b")
+            setup = b"O" + text + b"\x1b^\"qy$dd"
+            k = rng.pick([1, 1, 2])
+            a = pre + setup + mid + (str(k).encode() if k > 1 else b"") + b"@q" + tail
+            b = pre + setup + mid + macro * k + tail
+        out.append((case(f, a, rows, cols), case(f, b, rows, cols)))
+    return out
